@@ -468,7 +468,7 @@ pub fn plan_c11(thorough: bool) -> Plan {
     sort_by_bound(&mut cases);
     let mut p = Plan::new(
         cases,
-        "histx: every event sequence of length ≤L over {create an overlay on no parent or on any live overlay (with its live ancestor chain), begin a session on a list that is NOT a complete ancestor chain (child without its live parent, reversed chain, unrelated overlays), commit overlay i (blocking / non-blocking), drop overlay i, direct commit, rollback(1|2)} with ≤3 (thorough 4) overlays, from a leaf seed and a 19-key merkle cluster (so overlays create fresh merkle pages); oracle: a session on a complete chain reads, proves and computes the root exactly as the model with the chain applied; SessionParams::overlay is accepted iff the list is a complete ancestor chain; an overlay commit is accepted iff its parent was the last commit (or it has none) and its base is current, and then leaves exactly the state and rollback history of the equivalent direct commits; rejected/dropped/forked overlays leave no trace (audit incl. proofs after every step, final reopen).",
+        "histx: every event sequence of length ≤L over {create an overlay on no parent or on any live overlay (with its live ancestor chain), begin a session on a list that is NOT a complete ancestor chain (child without its live parent, reversed chain, unrelated overlays), commit overlay i (blocking / non-blocking), drop overlay i, direct commit, rollback(1|2)} with ≤3 (thorough 4) overlays, from a leaf seed and a 19-key merkle cluster (so overlays create fresh merkle pages); oracle: a session on a complete chain reads, proves and computes the root exactly as the model with the chain applied; SessionParams::overlay is accepted iff the list is a complete ancestor chain; an overlay commit is accepted iff its parent was the last commit (or it has none) and its base is current, and then leaves exactly the state and rollback history of the equivalent direct commits; rejected/dropped/forked overlays leave no trace (audit incl. proofs after every step, final reopen). Start states: leaf seed, 19-key cluster, committed overflow values (ovf2), and an on-disk pair next to 'round' keys inserted by an overlay. Plus the attempt-in-between family: a committed parent overlay, ONE attempt that must leave no trace (an overlay whose parent is not committed / a stale unrelated overlay / a stale prepared session, through the blocking and the non-blocking entry point; the child itself deferred once), then the legitimate child, which must still be accepted; rolled back afterwards.",
     );
     p.budget_s = if thorough { 1700 } else { 45 };
     p
@@ -616,7 +616,7 @@ pub fn plan_c12(thorough: bool) -> Plan {
     sort_by_bound(&mut cases);
     let mut p = Plan::new(
         cases,
-        "histx: every event sequence of length ≤L over {prepare a changeset (finished session) on the current state (2 batches, ≤3 prepared), commit prepared changeset i (blocking / non-blocking), create ≤2 overlays, commit / drop an overlay (blocking / non-blocking), direct commit, rollback(1|2)} from a leaf seed and a 20-key merkle cluster, rollback enabled; plus deferred non-blocking commits (1–3 attempts of a prepared session / overlay while a session is alive on the calling thread must each hand the changeset back and change nothing; it is then committed and rolled back); oracle: an attempt is accepted iff its base equals the current state (overlay: and its parent was the last commit), a rejected attempt returns an error, does not poison, and values, root, sync_seqn and what every later rollback restores are those of the model in which the attempt never happened; final reopen.",
+        "histx: every event sequence of length ≤L over {prepare a changeset (finished session) on the current state (2 batches, ≤3 prepared), commit prepared changeset i (blocking / non-blocking), create ≤2 overlays, commit / drop an overlay (blocking / non-blocking), direct commit, rollback(1|2)} from a leaf seed and a 20-key merkle cluster, rollback enabled; plus deferred non-blocking commits (1–3 attempts of a prepared session / overlay while a session is alive on the calling thread must each hand the changeset back and change nothing; it is then committed and rolled back); oracle: an attempt is accepted iff its base equals the current state (overlay: and its parent was the last commit), a rejected attempt returns an error, does not poison, and values, root, sync_seqn and what every later rollback restores are those of the model in which the attempt never happened; final reopen. Plus the attempt-in-between family of C11 (the commit-order bookkeeping must survive refused and deferred attempts).",
     );
     p.budget_s = if thorough { 1700 } else { 45 };
     p
